@@ -283,6 +283,14 @@ pub fn scientific(sci: &(Base,Exponent)) -> Value {
   let b = part.chars.iter().collect::<String>();
   let c = exp_whole.chars.iter().collect::<String>();
   let d = exp_part.chars.iter().collect::<String>();
+  // An integral exponent is read together with the mantissa by the correctly
+  // rounded decimal parser: `mantissa * 10^exp` in f64 rounds twice (`1.0e23`
+  // was off by one ulp, `5.0e-324` underflowed to zero).
+  if exp_part.chars.iter().all(|ch| *ch == '0') {
+    let s = if *sign { "-" } else { "" };
+    let num: f64 = format!("{}.{}e{}{}",a,b,s,c).parse::<f64>().unwrap();
+    return Value::F64(Ref::new(num));
+  }
   let num_f64: f64 = format!("{}.{}",a,b).parse::<f64>().unwrap();
   let mut exp_f64: f64 = format!("{}.{}",c,d).parse::<f64>().unwrap();
   if *sign {
